@@ -15,8 +15,8 @@ pub fn def() -> PropDef {
         name: "decoders",
         cfg_len: 0,
         tape_max: 160,
-        quick: 200_000,
-        thorough: 20_000_000,
+        quick: 600_000,
+        thorough: 30_000_000,
         max_shrink_iters: 2000,
         run: run_decoders,
     }];
